@@ -32,6 +32,7 @@ def run(ctx: Ctx):
     ctx.not_decided = ["equality of the server's tensor with a respondent-level tabulation (the response is taken as given)"]
     ctx.assumptions = ["element ids are distinct within a dimension"]
     valid_index_selection(ctx)
+    valid_idxs_table(ctx)
     valid_elements_chain(ctx)
     nan_mapping(ctx)
     measure_presence(ctx)
@@ -120,6 +121,64 @@ def valid_index_selection(ctx: Ctx):
         "tuple((d.shape for d in [self[i] for i in self.dimension_order]))",
         "the reshape of the flat data uses the same dimension_order as the index grid (writer/reader agreement)",
     )
+
+
+def valid_idxs_table(ctx: Ctx):
+    """`Cube._valid_idxs` evaluated (DECTAB, open-mesh model) on cube shapes: with / without missing elements, payload
+    order equal to / different from the dimension order (numeric array).  On every model the raw axis of dimension i must
+    be restricted to that dimension's valid offsets AND land on output axis i."""
+    from ..dectab import DTop, IndexInterp, Raises, selection_with_axes
+
+    cube = ctx.repo.cls("cube.py", "Cube")
+    m = ctx.repo.lookup(cube, "_valid_idxs")
+    where = "cube.py::Cube._valid_idxs [table]"
+    body = SUMMARIZER.summarize(m.node)
+    # (valid offsets per dimension, extent per dimension, dimension_order)
+    models = [
+        (((0, 1, 2), (0, 1, 2)), (3, 3), (0, 1)),
+        (((0, 1, 2), (0, 1, 2)), (3, 3), (1, 0)),
+        (((0, 1), (0, 1, 2)), (2, 3), (1, 0)),
+        (((0, 1), (0, 2)), (3, 3), (0, 1)),
+        (((1, 2), (0, 1, 2)), (3, 3), (1, 0)),
+        (((0, 1, 2),), (3,), (0,)),
+        (((0, 2),), (4,), (0,)),
+        (((0, 1), (0, 1, 2), (0, 1)), (2, 3, 2), (0, 1, 2)),
+        (((0, 1), (0, 1, 2), (0, 1)), (2, 3, 2), (0, 2, 1)),
+    ]
+    bad, n = [], 0
+    try:
+        for valids, extents, order in models:
+            dims = [{".valid_elements": {".element_idxs": v}, ".shape": e, ".all_elements": tuple(range(e))} for v, e in zip(valids, extents)]
+
+            def atoms(x, dims=dims, order=order):
+                t = u(x)
+                if t == "self._all_dimensions":
+                    return dims
+                if t == "self._all_dimensions.dimension_order":
+                    return order
+                if t == "self._all_dimensions.shape":
+                    return tuple(dims[i][".shape"] for i in order)
+                raise KeyError
+
+            n += 1
+            raw_extents = tuple(extents[i] for i in order)
+            want_pos = tuple(valids[i] for i in order)
+            want_axes = tuple(order)
+            try:
+                got_pos, got_axes = selection_with_axes(IndexInterp(atoms).ev(body), raw_extents)
+            except Raises as r:
+                bad.append(f"extents {extents} order {order}: raises {r.etype}")
+                continue
+            if tuple(map(tuple, got_pos)) != want_pos or tuple(got_axes) != want_axes:
+                bad.append(f"valid {valids} order {order}: raw axes select {got_pos} onto output axes {got_axes}; specified {want_pos} onto {want_axes}")
+    except DTop as t:
+        ctx.undecided("valid-idxs.table", where, "DECTAB: " + str(t), "open-mesh model over cube shapes")
+        return
+    ctx.count("valid-idxs models", n)
+    ctx.ob("valid-idxs.table", where, bad[:3] or f"{n} cube shapes: each raw axis restricted to its dimension's valid offsets and moved to that dimension's axis",
+           "valid offsets of dimension i on the raw axis that holds it, delivered on axis i", not bad,
+           "a numeric-array cube stores (category, subvariable): without the permutation every measure is transposed")
+    ctx.require_min("valid-idxs models", 9)
 
 
 def valid_elements_chain(ctx: Ctx):
